@@ -162,7 +162,24 @@ theorem pres_checkStmt (pq : Pres Q) (s : Nat) :
   | .probe id k p, st, st', q, h => by
     simp only [checkStmt, Res.ok.injEq] at h
     rw [← h]; exact q
+  | .param x tag, st, st', q, h => by
+    simp only [checkStmt, Res.ok.injEq] at h
+    rw [← h]; exact q
 end
+
+theorem pres_declareParams (pq : Pres Q) (s : Nat) :
+    ∀ (ps : List (Name × Nat)) (g g' : Graph), Q g → declareParams s ps g = .ok g' → Q g' := by
+  intro ps
+  induction ps with
+  | nil => intro g g' q h; simp only [declareParams, Res.ok.injEq] at h; rw [← h]; exact q
+  | cons p rest ih =>
+    intro g g' q h
+    obtain ⟨x, tag⟩ := p
+    unfold declareParams at h
+    cases hd : g.insertDecl ⟨s, x⟩ (.localv tag) none with
+    | panic e => rw [hd] at h; cases h
+    | err e => rw [hd] at h; cases h
+    | ok g1 => rw [hd] at h; exact ih g1 g' (pq.loc _ _ _ _ q hd) h
 
 theorem pres_checkItems (pq : Pres Q) (s : Nat) :
     ∀ (items : List Item) (st st' : St), Q st.g → checkItems s items st = .ok st' → Q st'.g := by
@@ -175,12 +192,19 @@ theorem pres_checkItems (pq : Pres Q) (s : Nat) :
     | fn n tag body =>
       unfold checkItems at h
       simp only at h
-      cases hb : checkBlock (st.g.wrap s (.function n)).2 body { st with g := (st.g.wrap s (.function n)).1 } with
-      | panic x => rw [hb] at h; cases h
-      | err e => rw [hb] at h; cases h
-      | ok st1 =>
-        rw [hb] at h
-        exact ih st1 st' (pres_checkBlock pq _ body _ st1 (pq.wrap _ _ _ q) hb) h
+      cases hpar : declareParams (st.g.wrap s (.function n)).2 (paramsOf body) (st.g.wrap s (.function n)).1 with
+      | panic x => rw [hpar] at h; cases h
+      | err e => rw [hpar] at h; cases h
+      | ok gp =>
+        rw [hpar] at h
+        simp only at h
+        have qp := pres_declareParams pq _ _ _ gp (pq.wrap _ _ _ q) hpar
+        cases hb : checkBlock (st.g.wrap s (.function n)).2 body { st with g := gp } with
+        | panic x => rw [hb] at h; cases h
+        | err e => rw [hb] at h; cases h
+        | ok st1 =>
+          rw [hb] at h
+          exact ih st1 st' (pres_checkBlock pq _ body _ st1 qp hb) h
     | const n tag =>
       unfold checkItems at h
       exact ih _ st' (pq.wrap _ _ _ q) h
